@@ -381,6 +381,7 @@ class Oracle:
                         part.violation(f"C15|{side}|fillable-rejected|{mode[0]}", "an order that the visible book can fill exactly (and cash / holding cover) "
                                        "was rejected", case, {"label": op.label, "error": out.error, "book": [[float(p), float(a)] for p, a in
                                                                                                            md["book"][ins]["asks" if side == "buy" else "bids"]]})
+        self._last_ok = out.ok
         self.compare(ctx, hist, op)
 
     def resync(self, ctx):
@@ -427,7 +428,15 @@ class Oracle:
                     part.violation(f"C15|book.{s}|{op.kind}", "the visible order book differs from the model (fills shrink it until the next refresh)", case,
                                    {"label": op.label, "instrument": ins, "impl": impl, "model": ref})
                     return self.resync(ctx)
-        bal = m.get_market_balance()
+        if op.kind in ("buy", "sell") and getattr(self, "_last_ok", True):
+            # right after a trade the oracle looks at the equity WITHOUT leaving a trace (snapshot / restore): whatever the market memoises about its
+            # balance stays as the strategy's own calls left it, so that a later look (after a status refresh) shows whether it went stale
+            keep = ctx.snapshot()
+            bal = m.get_market_balance()
+            ctx.restore(keep)
+            md = ctx.model
+        else:
+            bal = m.get_market_balance()
         eq = md["cash"] + sum((q["amount"] * F(self.world.marks[k]) for k, q in md["pos"].items()), Fraction(0))
         if abs(F(bal.net_value) - eq) > tol or abs(F(bal.balance) - md["cash"]) > tol or abs(F(bal.premium) - (eq - md["cash"])) > tol:
             part.violation(f"C15|equity|{op.kind}", "equity != cash + positions at mark", case, {"label": op.label, "impl": str(bal.net_value), "model": float(eq)})
